@@ -221,7 +221,7 @@ def core_expr(draw, depth, names_later, names_any, allow_backtrack, mode, rules_
         return ('opt', sub())
     if k == 'rep':
         lo, hi = draw(st.sampled_from([(0, None), (0, None), (1, None), (1, None), (2, None), (2, 2),
-                                       (1, 2), (None, 2), (0, 1), (2, 3), (3, 3), (1, 1), (None, 1)]))
+                                       (1, 2), (None, 2), (0, 1), (2, 3), (3, 3), (1, 1), (None, 1), (2, 10), (9, 12)]))
         return ('rep', nonnull(sub()), lo, hi)
     if k in ('expect', 'expectnot'):
         return (k, sub())
